@@ -67,7 +67,6 @@ def answerOf (w : World) (want : HKind) : Option Res → MgAnswer
     .found (some (strong e))
       (if hkOfName name = want then (w.colls[cp]?).bind fun c => c.st.files[name]? else none)
   | some (.coll _) => .found (some "ctag") none
-  | some (.dir _) => .found (some "ctag") none    -- a plain directory has the empty tree's tag
   | some _ => .found none none
 
 /-- the whole report: (href, answer) per response element -/
